@@ -422,6 +422,9 @@ def run_options(r, iface0):
             "charset-content-type": lambda: m.FileResponse(path, content_type="text/plain; charset=utf-8", chunk_size=3),
             "download-name": lambda: m.FileResponse(path, download_name="r\xe9sum\xe9 final.txt", chunk_size=4),
             "extra-headers": lambda: m.FileResponse(path, headers={"x-extra": "1", "cache-control": "no-store"}, chunk_size=4),
+            # validators passed in by the application (any spelling): whatever the response announces is what If-Range is held against
+            "own-etag-header": lambda: m.FileResponse(path, headers={"ETag": '"release-7"'}, chunk_size=4),
+            "own-validators-lower": lambda: m.FileResponse(path, headers={"etag": '"r8"', "last-modified": "Mon, 01 Jan 2001 00:00:00 GMT", "x-a": "1"}, chunk_size=5),
             "etag-hook": lambda: Tagged(path, chunk_size=4),
             "etag-hook-default-chunk": lambda: Tagged(path),
         }
